@@ -8,4 +8,6 @@ class Parser:
 
     def get_program(self):
         from hidsim.asm import assemble
-        return assemble(self.lines, self.args)
+        prog = assemble(self.lines, self.args)
+        prog.argv_used = list(self.args)
+        return prog
